@@ -200,6 +200,72 @@ def r2_value_tags(chk: Check):
     chk.require(need <= set(kinds) and has_none, chk.fkey(w, "kinds"), f"the value writer does not handle {sorted(need - set(kinds))}{'' if has_none else ' / None'}", chk.loc(w.module, w.node))
     rets = [x for x in body_walk(w.node) if isinstance(x, ast.Raise)]
     chk.require(len(rets) >= 1, chk.fkey(w, "unknown kinds raise"), "an unknown value kind must raise rather than be written as-is", chk.loc(w.module, w.node))
+    # writer and collector, kind by kind (decision tables over the kind of the value): every storable kind yields a value / is descended into
+    from ..dispatch import OTHER, kind_table
+
+    wp = w.node.args.args[0].arg
+
+    def ev_ret(n, rd_):
+        if n.kind == "stmt" and isinstance(n.ast, ast.Return):
+            return ["return " + ("None" if n.ast.value is None or (isinstance(n.ast.value, ast.Constant) and n.ast.value.value is None) else src(n.ast.value))]
+        return []
+
+    def none_test(n, rd_):
+        return ("isnone", True) if rd_.canon(n.ast, n) == f"{wp} is None" else None
+
+    KW = ["list", "dict", "Path", "SerializedPath", "int", "float", "str", "Enum", "Config"]
+    _, _, tab = kind_table(w.node, wp, [(k, {"isnone": False}) for k in KW] + [(OTHER, {"isnone": False})], ev_ret, extra=none_test)
+    for k in KW:
+        outs = tab[k]
+        rets = [e for o in outs for e in o.events]
+        ok = bool(outs) and all(o.end == "exit" and len(o.events) == 1 and o.events[0] != "return None" and not [u for u in o.unknown if u[2] is None] for o in outs)
+        if ok and k in ("list", "dict"):
+            ok = all("_outputjsonvalue(" in e for e in rets)
+        chk.require(ok, chk.fkey(w, f"writes {k}"), f"a {k} value is written as {rets or 'nothing (the function falls off its end: null)'}: every storable kind must produce its encoding "
+                    "(containers by encoding each member)", chk.loc(w.module, w.node))
+    chk.require(all(o.end == "raise" for o in tab[OTHER]) and tab[OTHER], chk.fkey(w, "unknown kinds raise (table)"), "an unknown value kind must raise rather than be written as null", chk.loc(w.module, w.node))
+    co = tree.func("core.objects", "ConfigInformation.__collect_objects__")
+    cp = co.node.args.args[0].arg
+
+    def ev_col(n, rd_):
+        out = []
+        if n.kind == "for":
+            out.append(f"for {src(n.ast.target)} in {rd_.canon(n.ast.iter, n)}")
+        for c in n.calls():
+            if tail(c) == "__collect_objects__" and c.args:
+                out.append("rec " + src(c.args[0]))
+            elif tail(c) == "__get_objects__":
+                out.append("objects " + rd_.canon(c.func.value, n))
+        return out
+
+    _, _, tabc = kind_table(co.node, cp, ["Config", "list", "dict", "Path", "int", "float", "str", "Enum", OTHER], ev_col)
+
+    def uniq(o):
+        seen = []
+        for e in o.events:
+            if not (e.startswith("for ") and e in seen):
+                seen.append(e)
+        return seen
+
+    okc = all(uniq(o) == [f"objects {cp}.__xpm__"] for o in tabc["Config"]) and tabc["Config"]
+    for o in tabc["list"]:
+        e = uniq(o)
+        okc = okc and len(e) == 2 and e[0].endswith(f" in {cp}") and e[1] == "rec " + e[0][4:].split(" in ")[0]
+    for o in tabc["dict"]:
+        e = uniq(o)
+        good = False
+        if len(e) >= 2 and e[0].startswith("for "):
+            tgt, it = e[0][4:].split(" in ", 1)
+            recs = [x[4:] for x in e if x.startswith("rec ")]
+            if it == f"{cp}.values()":
+                good = tgt in recs
+            elif it == f"{cp}.items()":
+                nm = tgt.strip("()").split(", ")
+                good = len(nm) == 2 and nm[1] in recs
+        okc = okc and good
+    chk.require(bool(okc), chk.fkey(co, "collector reaches every member"), "the collector must emit the record of a configuration and descend into every list element and every dict value: "
+                "a configuration referenced from there would otherwise be written as a dangling reference", chk.loc(co.module, co.node))
+    chk.require(all(o.end == "raise" for o in tabc[OTHER]) and tabc[OTHER], chk.fkey(co, "collector: unknown kinds raise"), "the collector must raise on an unknown value kind", chk.loc(co.module, co.node))
     # reader
     rtags = {}
     g = CFG(r.node)
